@@ -84,6 +84,18 @@ def judge(rep, item, mobs):
                      f"search tagged {tag!r}: reported {got[:6]} but the lines it "
                      f"matches are {want[:6]}", impl=irs, spec=want)
             return
+    # searches that share a tag (e.g. look-alike search objects): together they report
+    # exactly the lines each of them matches, each once per search
+    for tag, dis in T.shared_tag_simple_defs(scn).items():
+        want = sorted(((ln, vs) for di in dis for ln, vs in spec.get(di, [])), key=repr)
+        got = sorted(((r['ln'], r['iter']) for r in by_tag.get(tag, [])), key=repr)
+        rep.count('spec_compared_shared_tag')
+        if got != [(ln, vs) for ln, vs in want]:
+            rep.fail('failing-input', scn,
+                     f"the {len(dis)} searches tagged {tag!r} together reported {len(got)} "
+                     f"results, the lines they match give {len(want)}: reported {got[:6]}, "
+                     f"prescribed {want[:6]}", impl=irs, spec=want)
+            return
     diff = T.compare_results(irs, model['results'])
     if diff:
         rep.fail('correspondence-broken', scn, diff, impl=irs, model=model['results'])
